@@ -429,3 +429,45 @@ def reg_key(ctx, rule="R-REG-KEY"):
                                      unreg, pretty(cb), sorted({pretty(rcb) for _, _, rcb in regs}) or "nothing", reg), s.node)
     if n < 6:
         ctx.unknown(rule, "only %d deregistration sites found" % n)
+
+
+def subscribe_once(ctx, rule="R-SUBSCRIBE-HOOK"):
+    """Dm1.subscribe: every path leaves this object's receive hook registered with its CA - it is registered on the path, or a
+    flag kept ON THIS OBJECT says an earlier call did it - and the callback is stored in this object's list"""
+    P = ctx.prog
+    f = P.func("Dm1", "subscribe")
+    n = 0
+    for r in runs(ctx, f):
+        if r.term == "raise":
+            continue
+        n += 1
+        gl = lits(r.guards())
+        hooks = [e for _, e in r.effects() if e.kind == "call" and mname(e.value) == "subscribe" and e.value[1][1] == ("attr", SELF, "_ca")]
+        stores = [e for _, e in r.effects() if e.kind in ("store", "aug")]
+        app = [e for _, e in r.effects() if e.kind == "call" and mname(e.value) in ("append", "insert") and e.value[1][1] == ("attr", SELF, "_subscribers")
+               and ("p", "callback") in e.value[2]]
+        inst = "Dm1.subscribe path [%s]" % ("hook registered" if hooks else "hook already registered")
+        shared = [e for e in stores if e.target[0] == "attr" and e.target[1] != SELF and e.target[1][0] in ("clsref", "glob")]
+        if shared:
+            ctx.violated(rule, f, "Dm1.subscribe keeps its registration state per object", "the 'receive hook registered' state is written to %s, "
+                         "which all Dm1 objects share: after the first object subscribed, every other Dm1 object skips registering its own hook "
+                         "and its subscribers never receive a DM1" % pretty(shared[0].target), shared[0].node)
+            return
+        if not app:
+            ctx.violated(rule, f, inst, "the callback is not added to this object's subscriber list", f.node)
+            continue
+        if hooks:
+            if hooks[0].value[2] != (("attr", SELF, "_receive"),):
+                ctx.violated(rule, f, inst, "the CA is given %s instead of this object's _receive" % pretty(hooks[0].value[2][0]) if hooks[0].value[2] else "nothing", hooks[0].node)
+                continue
+            flag = [e for e in stores if e.target[0] == "attr" and e.target[1] == SELF]
+            ctx.holds(rule, inst)
+            continue
+        # no registration on this path: it must be conditioned on a flag of this object that only a registering path sets
+        flags = [g for g, p in gl if any(x[0] == "attr" and x[1] == SELF for x in walk(g))]
+        if flags:
+            ctx.holds(rule, inst)
+        else:
+            ctx.violated(rule, f, inst, "the receive hook is not registered and no per-object state says it already is", f.node)
+    if n == 0:
+        ctx.unknown(rule, "no paths through Dm1.subscribe")
